@@ -407,6 +407,31 @@ class DirWatch:
         self.inspections = 0
         self.states = set()
         self.seen_temp = 0
+        from . import oshook
+
+        oshook.register(self.os_event)
+
+    def close(self):
+        from . import oshook
+
+        oshook.unregister(self.os_event)
+
+    def os_event(self, event, args):
+        """os.rename / os.remove about to happen on a destination name: a boundary like any other (the directory is inspected at
+        this very instant, and a planned fault makes the call itself fail)."""
+        obs = self.obs
+        paths = [p for p in args[:2] if isinstance(p, str)]
+        for x in getattr(obs, 'xfers', ()):
+            if x.kind == 'download' and isinstance(x.dest, str) and x.dest in paths and x.fifo_reader is None:
+                d = obs.world.director
+                key = d.occurrence(f'{x.label}/os:{event.split(".")[1]}')
+                f = d.point(key, 'before')
+                if f is not None:
+                    from .director import InjectedOSError
+
+                    d.note_raised(f, key, 'before')
+                    raise InjectedOSError(f['tag'])
+                return
 
     def hook(self, key, phase, info):
         obs = self.obs
@@ -429,6 +454,10 @@ class DirWatch:
                     cur = None
                 if cur is None:
                     st = 'absent'
+                    if x.prev is not None and len(self.violations) < 5:
+                        # the name had content before the download began: it may be replaced by the complete object, never vanish
+                        self.violations.append(V(f'{x.label}: the destination name, which held previous content, does not exist '
+                                                 f'(observed at {key}/{phase})', **base_mech(obs, x), sym='previous-content-gone'))
                 elif cur == x.data and cur == x.prev:
                     st = 'prev=complete'
                 elif cur in complete_contents(obs, x):
